@@ -865,6 +865,11 @@ fn block_src(pkg: &Pkg, b: &Block, ind: usize, out: &mut String) {
 fn test_src(pkg: &Pkg, t: &TestBlock) -> String {
     let mut s = format!("test {} {{\n    {}\n", t.name, mark_src(pkg.mode, t.head));
     block_src(pkg, &t.body, 1, &mut s);
+    if t.head % 3 == 0 {
+        // a type-checking obligation that is only resolved after the body was checked
+        // (interpolated values must be printable); no effect on markers or verdict
+        s.push_str(&format!("    let note{} = f\"test {{{}}} done: {{true}}\";\n", t.head, t.head));
+    }
     let tail = match &t.tail {
         Tail::Kw(b) => (if *b { "accept" } else { "reject" }).to_string(),
         Tail::RetPath(b) => format!("return {}", verdict_path(*b)),
